@@ -26,7 +26,7 @@ RunEvents(s, gg, seq, i) ==
 \* globals the file may use: only names of G (the pre-pass result is exact) -- unless the pre-pass is disabled
 GlobalOK(x) == Resolve(st.old, x) # 0 \/ x \in G
 Do(line, seq, nids, closer, after) ==
-  /\ n < MaxN
+  /\ n + Len(stack) + (IF closer = "" THEN 0 ELSE 1) < MaxN      \* room is left to close every open scope
   /\ \A k \in 1..Len(seq) : seq[k].e = "use" => (seq[k].x = "u" \/ seq[k].x = "self" \/ GlobalOK(seq[k].x))
   /\ LET abs == [k \in 1..Len(seq) |-> [seq[k] EXCEPT !.t = IF @ = 0 THEN 0 ELSE idx + @]] IN
      LET r == RunEvents(st, g, abs, 1) IN
@@ -40,7 +40,7 @@ Do(line, seq, nids, closer, after) ==
 
 Init ==
   /\ text = "" /\ evs = <<>> /\ st = InitJudge /\ stack = <<>> /\ n = 0 /\ idx = 0
-  /\ G \in SUBSET {"a", "x"}
+  /\ G \in SUBSET {"a", "x", "b"}
   /\ kf \in BOOLEAN
   /\ g = InitGen(Listed \cup (IF NoPrepass THEN {} ELSE G) \cup (IF kf THEN {"b"} ELSE {}))   \* kept function names are avoided from the start
 
